@@ -59,7 +59,7 @@ CHECKS["C20"] = {
 }
 
 
-_L2NOTE = 'Trusted: Coq kernel; extraction; harness (crashfs = in-memory VFS/MetaStore with durable/pending bookkeeping); bbolt as an atomic durable cell; torn-write granularity of 8 bytes. The L2 model works on abstract segment files; that these behave like the byte-level files of the L1 model (writer, recovery of every torn image of the in-flight batch, readers, codec) is proved per file in Props/Link.v (28 theorems, re-checked with C01, C02, C05); not covered there: directory-level facts and the composition into one byte-level multi-file statement.'
+_L2NOTE = 'Trusted: Coq kernel; extraction; harness (crashfs = in-memory VFS/MetaStore with durable/pending bookkeeping); bbolt as an atomic durable cell; torn-write granularity of 8 bytes. The L2 model works on abstract segment files; that these behave like the byte-level files of the L1 model (writer, recovery of every torn image of the in-flight batch, readers, codec) is proved in Props/Link.v (59 theorems, re-checked with C01, C02, C05): per file, at directory level (every byte-level crash outcome of a whole disk is an L2 crash choice and vice versa) and composed with the WAL operations and crash histories by a lock-step run of the byte disk (DESIGN.md section link2); not covered there: the recorded index start used by sealed readers (hypothesis of Link_get_log_partial), histories with injected faults.'
 _INTERIM = " PROVED in full (Wal/Crash*.v, Wal/Seq*.v; every crash point of every call and of recovery is covered by proof); the statement is additionally evaluated on random histories of the model every run and the model is tied to the implementation by the streams."
 for _p, _t in {
   "C01": "Master statement crash_refinement_stmt (Wal/Hist.v): for all histories of calls, power losses at any I/O boundary with any adversary choice over non-durable files and pending batches, nested crashes inside recovery and reopen cycles, Open succeeds and the recovered log equals the acknowledged state or the state of the interrupted call. Model tied to the code by the crash stream (crash images built from the implementation's own I/O trace, recovered by the real Open) with an acknowledged-entries oracle.",
